@@ -144,11 +144,27 @@ def struct_program(rng):
             t1, s1, c1, _ = atom()
             t2, s2, c2, _ = atom(allow_const=not c1)
             return "bin:%s:%s:%s:%s" % (lt, o[0], t1, t2), "%s = %s %s %s;" % (ls, s1, o[1], s2)
-        if k < 0.7:
+        if k < 0.66:
+            # stage 7: a chain of two to four operators, grouped to the left (parentheses where C's precedence
+            # would group otherwise)
+            PR = {"+": 4, "-": 4, "&": 3, "^": 2, "|": 1}
+            o = rng.choice(OPS)
+            t1, s1, c1, _ = atom()
+            t2, s2, c2, _ = atom(allow_const=not c1)
+            toks_, text, top = [t1, o[0], t2], "%s %s %s" % (s1, o[1], s2), PR[o[1]]
+            for _ in range(rng.randint(1, 3)):
+                o = rng.choice(OPS)
+                t, s_, _, _ = atom()
+                if PR[o[1]] > top:
+                    text = "(%s)" % text
+                text = "%s %s %s" % (text, o[1], s_); top = PR[o[1]]
+                toks_ += [o[0], t]
+            return "chain:%s:%s" % (lt, ":".join(toks_)), "%s = %s;" % (ls, text)
+        if k < 0.75:
             o = rng.choice(OPS)
             t, s_, _, _ = atom()
             return "oas:%s:%s:%s" % (lt, o[0], t), "%s %s= %s;" % (ls, o[1], s_)
-        if k < 0.85:
+        if k < 0.88:
             return "inc:" + lt, rng.choice(["%s++;", "++%s;"]) % ls
         return "dec:" + lt, rng.choice(["%s--;", "--%s;"]) % ls
 
@@ -298,6 +314,7 @@ def run(chk):
         if wide:
             chk.count("struct_wide")
             chk.count("struct_wide_statements", sum(1 for t in toks if t.startswith("w") and ":" in t and t.split(":")[0] in ("wasg", "wbin", "woas")))
+        chk.count("struct_chain_statements", sum(1 for t in toks if t.startswith("chain:")))
         ptoks = toks[1:] if toks and toks[0].startswith("abs=") else toks
         chk.case(key=src, nontrivial=any(t in ("if", "ife", "wh", "do", "for") for t in toks))
         for t in toks:
